@@ -47,8 +47,15 @@ def plan(tier, seed):
 
 
 # ---------------------------------------------------------------------------------------------- selectors
-def random_selector(rng, n):
-    """-> (kind, args) selecting at least one of n frames."""
+def random_selector(rng, n, negative=False):
+    """-> (kind, args) selecting at least one of n frames.  negative: also reversed selections (negative step)."""
+    if negative and rng.random() < 0.18:
+        for _ in range(20):
+            a = rng.choice([None, None, -1, n - 1, rng.randrange(-n - 2, n + 2)])
+            b = rng.choice([None, None, 0, -n - 1, rng.randrange(-n - 2, n + 3)])
+            c = -rng.choice([1, 1, 1, 2, 3, rng.randrange(1, n + 2)])
+            if len(range(n)[slice(a, b, c)]) >= 1:
+                return 'slice', (a, b, c)
     for _ in range(40):
         if rng.random() < 0.3:
             k = rng.choice([1, 2, 3, max(1, n // 2), max(1, n - 1), n, n + 1, 2 * n + 3, rng.randrange(1, 2 * n + 2)])
@@ -363,7 +370,7 @@ def run_rp66v1(ctx, p, audit):
         for k in range(p['selectors']):
             # one selector for the whole file: chosen to select >= 1 frame of a random pass, must then select >= 1 frame of every pass
             for _ in range(30):
-                kind, args = random_selector(rng, len(rng.choice(passes)[1].frames))
+                kind, args = random_selector(rng, len(rng.choice(passes)[1].frames), negative=True)
                 if kind == 'sample' or all(len(range(len(ft.frames))[slice(*args)]) >= 1 for _, ft in passes):
                     break
             else:
@@ -432,7 +439,7 @@ def run_rp66v1(ctx, p, audit):
                 check_las(rec, 'rp66v1', text, exp, ww)
                 readable(rec, 'rp66v1', path, ww)
             sel_n = len(ft0.frames)
-            nt = ((kind == 'slice' and (args[2] or 1) > 1) or (kind == 'sample' and args[0] < sel_n)) and bool(chans) and len(set(chans) & set(names0[1:])) < len(names0) - 1
+            nt = ((kind == 'slice' and abs(args[2] or 1) > 1) or (kind == 'sample' and args[0] < sel_n)) and bool(chans) and len(set(chans) & set(names0[1:])) < len(names0) - 1
             rec.case((data, kind, args, tuple(chans), method, width, ffmt), nt,
                      classes=['rp66v1', 'selector:' + kind, 'channels:' + ('all' if not chans else 'subset'), 'reduction:' + method] +
                              (['multi-dimensional'] if any(c.count > 1 for _, ft in passes for c in ft.channels) else []) +
@@ -463,7 +470,7 @@ def run_bit(ctx, p, audit):
         for k in range(p['selectors']):
             pm0 = rng.choice(passes)
             for _ in range(30):
-                kind, args = random_selector(rng, max(1, pm0.frames))
+                kind, args = random_selector(rng, max(1, pm0.frames), negative=True)
                 if kind == 'sample' or all(len(range(pm.frames)[slice(*args)]) >= 1 for pm in passes):
                     break
             else:
@@ -521,7 +528,7 @@ def run_bit(ctx, p, audit):
                     text = f.read()
                 check_las(rec, 'bit', text, exp, ww)
                 readable(rec, 'bit', path, ww)
-            nt = ((kind == 'slice' and (args[2] or 1) > 1) or (kind == 'sample' and args[0] < pm0.frames)) and bool(chans)
+            nt = ((kind == 'slice' and abs(args[2] or 1) > 1) or (kind == 'sample' and args[0] < pm0.frames)) and bool(chans)
             rec.case((data, kind, args, tuple(chans), width, ffmt), nt,
                      classes=['bit', 'selector:' + kind, 'channels:' + ('all' if not chans else 'subset')] + (['multi-pass'] if len(passes) > 1 else []),
                      sample={'format': 'bit', 'passes': [(pm.frames, pm.names_str) for pm in passes], 'selector': w['selector'], 'channels': chans})
@@ -627,7 +634,7 @@ def run_lis(ctx, p, audit):
                                 row.append(sum(vals) / len(vals))
                     frames.append(row)
                     tols.append([Fraction(1, 2 * 10 ** d) + abs(v) * Fraction(1, 10 ** 12) + Fraction(1, 10 ** 12) for v in row])
-                stepped = (kind == 'sample' and args[0] < lp.total) or (kind == 'slice' and (args[2] or 1) > 1)
+                stepped = (kind == 'sample' and args[0] < lp.total) or (kind == 'slice' and abs(args[2] or 1) > 1)
                 if lp.indirect and stepped:
                     # implied X of a stepped selection is finding F15 of C06 (wrong after a record boundary): not asserted twice
                     rec.cls('lis implied X under a stepped selection (X column owned by C06/F15, not asserted here)')
@@ -655,7 +662,7 @@ def run_lis(ctx, p, audit):
                     text = f.read()
                 check_las(rec, 'lis', text, exp, ww)
                 readable(rec, 'lis', path, ww)
-            nt = ((kind == 'slice' and (args[2] or 1) > 1) or (kind == 'sample' and args[0] < lp0.total)) and bool(chans)
+            nt = ((kind == 'slice' and abs(args[2] or 1) > 1) or (kind == 'sample' and args[0] < lp0.total)) and bool(chans)
             rec.case((data, kind, args, tuple(chans), method, width, ffmt), nt,
                      classes=['lis', 'selector:' + kind, 'channels:' + ('all' if not chans else 'subset'), 'x:' + ('implied' if lp0.indirect else 'explicit')],
                      sample={'format': 'lis', 'passes': w['passes'], 'selector': w['selector'], 'channels': chans})
